@@ -1122,6 +1122,10 @@ class Emitter:
         for n in sorted(self.unknown_externals):
             f = mod.funcs[n]
             protos.append(self.proto(f) + '; /* UNKNOWN EXTERNAL */')
+        # harness-specific vf_* helpers implemented in the runtime model: typed prototype
+        for n in sorted(self.externals):
+            if n.startswith('vf_') and n not in HEADER_VF and n in mod.funcs:
+                protos.append(self.proto(mod.funcs[n]) + ';')
         gl = []
         gdecl = []
         for n, g in mod.globals.items():
@@ -1151,6 +1155,9 @@ class Emitter:
                          gdecl + protos + gl + [''] + body + ctor_fn) + '\n'
 
 
+HEADER_VF = {'vf_nondet_u8', 'vf_nondet_u16', 'vf_nondet_u32', 'vf_nondet_u64', 'vf_nondet_bool',
+             'vf_atomic_begin', 'vf_atomic_end', 'vf_self', 'vf_join_all', 'vf_any_stuck', 'vf_is_dead',
+             'vf_note', 'vf_throw', 'vf_check', 'vf_assume', 'vf_reach', 'vf_spawn', 'vf_main'}
 ORD = {'unordered': 'VF_RLX', 'monotonic': 'VF_RLX', 'acquire': 'VF_ACQ', 'release': 'VF_REL',
        'acq_rel': 'VF_AR', 'seq_cst': 'VF_SC'}
 C_RESERVED = {'malloc', 'free', 'memcpy', 'memset', 'memmove', 'abort', 'exit', 'main', 'syscall',
